@@ -827,6 +827,9 @@ int tls_process_client_hello_exts(const uint8_t *exts, size_t extslen, uint8_t *
 	int type;
 	const uint8_t *data;
 	size_t datalen;
+	int (*process)(const uint8_t *ext_data, size_t ext_datalen, uint8_t **out, size_t *outlen);
+	uint8_t *dry;
+	size_t len;
 
 	while (extslen) {
 		if (tls_ext_from_bytes(&type, &data, &datalen, &exts, &extslen) != 1) {
@@ -836,24 +839,31 @@ int tls_process_client_hello_exts(const uint8_t *exts, size_t extslen, uint8_t *
 
 		switch (type) {
 		case TLS_extension_ec_point_formats:
-			if (tls_process_client_ec_point_formats(data, datalen, &out, outlen) != 1) {
-				error_print();
-				return -1;
-			}
+			process = tls_process_client_ec_point_formats;
 			break;
 		case TLS_extension_signature_algorithms:
-			if (tls_process_client_signature_algorithms(data, datalen, &out, outlen) != 1) {
-				error_print();
-				return -1;
-			}
+			process = tls_process_client_signature_algorithms;
 			break;
 		case TLS_extension_supported_groups:
-			if (tls_process_client_supported_groups(data, datalen, &out, outlen) != 1) {
-				error_print();
-				return -1;
-			}
+			process = tls_process_client_supported_groups;
 			break;
 		default:
+			error_print();
+			return -1;
+		}
+
+		// dry run first: the reply must fit into the maxlen bytes of out
+		dry = NULL;
+		len = 0;
+		if (process(data, datalen, &dry, &len) != 1) {
+			error_print();
+			return -1;
+		}
+		if (len > maxlen || *outlen > maxlen - len) {
+			error_print();
+			return -1;
+		}
+		if (process(data, datalen, &out, outlen) != 1) {
 			error_print();
 			return -1;
 		}
